@@ -57,8 +57,17 @@ func (o originSet) equal(p originSet) bool {
 }
 
 type provCtx struct {
-	m    *Model
-	busy map[string]bool
+	m     *Model
+	busy  map[string]bool
+	loads []*ssa.Call // atomic Load calls on election fields reached by the walk
+}
+
+// OriginLoads returns the atomic Load instructions (on fields of the election object) that
+// can supply the value.
+func (m *Model) OriginLoads(v ssa.Value) []*ssa.Call {
+	pc := &provCtx{m: m, busy: map[string]bool{}}
+	pc.walk(v, "", originSet{}, 0)
+	return pc.loads
 }
 
 // Origins computes where a value can come from.
@@ -67,6 +76,13 @@ func (m *Model) Origins(v ssa.Value) originSet {
 	out := originSet{}
 	pc.walk(v, "", out, 0)
 	return out
+}
+
+// OriginLoadsField is OriginLoads for a field of a struct-valued / encoded value.
+func (m *Model) OriginLoadsField(v ssa.Value, field string) []*ssa.Call {
+	pc := &provCtx{m: m, busy: map[string]bool{}}
+	pc.walk(v, field, originSet{}, 0)
+	return pc.loads
 }
 
 // FieldOrigins computes the origins of field `field` of a struct-valued (or encoded) value,
@@ -479,9 +495,17 @@ func (pc *provCtx) walkCall(c *ssa.Call, field string, out originSet, depth int)
 	}
 	if fld, meth, ok := m.atomicCall(c); ok && meth == "Load" {
 		out["field:"+fld] = true
+		pc.loads = append(pc.loads, c)
 		return
 	}
 	if m.isLib(f) && f.Blocks != nil && f.Signature.Results().Len() == 1 {
+		nBefore := len(pc.loads)
+		defer func() {
+			// loads inside an accessor happen at the accessor's call site
+			if len(pc.loads) > nBefore {
+				pc.loads = append(pc.loads[:nBefore], c)
+			}
+		}()
 		for _, b := range f.Blocks {
 			if ret, ok := b.Instrs[len(b.Instrs)-1].(*ssa.Return); ok && b != f.Recover {
 				pc.walk(returnValue(ret, 0), field, out, depth+1)
